@@ -118,11 +118,11 @@ func main() {
 	}
 
 	thorough := a.Thorough()
-	n := map[string]int{"window": 16, "prog": 96, "wait": 12, "crash": 20, "fault": 36, "openfail": 6}
-	nops, kTxnCap, kTraceCap := 170, 48, 24
+	n := map[string]int{"window": 24, "prog": 144, "wait": 16, "crash": 28, "fault": 36, "openfail": 8}
+	nops, kTxnCap, kTraceCap := 170, 64, 32
 	if thorough {
-		n = map[string]int{"window": 150, "prog": 2000, "wait": 60, "crash": 250, "fault": 160, "openfail": 40}
-		nops, kTxnCap, kTraceCap = 400, 400, 200
+		n = map[string]int{"window": 400, "prog": 6000, "wait": 160, "crash": 700, "fault": 360, "openfail": 80}
+		nops, kTxnCap, kTraceCap = 400, 900, 450
 	}
 	if strings.Contains(a.Extra, "search") && !thorough {
 		for k := range n {
